@@ -78,7 +78,24 @@ def main():
             for cleanup in (1, 0):
                 name = "%s-%s-c%d" % (shape, "+".join("%d%s%d" % f for f in fs) or "nofault", cleanup)
                 cases.append((name, scenario(name, shape, fs, cleanup), cleanup, fs))
+    # the same lifecycle in REAL-TIME mode: the run idles until the wall clock reaches its end time (or a fault ends it);
+    # whatever ends it, nothing may be left started when run() returns
+    for shape, (_, ids) in SHAPES.items():
+        if shape in ("map", "switch"):
+            continue
+        fsets = [()] + [((i, ph, 1),) for i in ids for ph in ("eval", "stop")]
+        rng.shuffle(fsets)
+        for fs in fsets[:3 if chk.tier == "quick" else 12]:
+            for cleanup in (1, 0):
+                name = "rt-%s-%s-c%d" % (shape, "+".join("%d%s%d" % f for f in fs) or "nofault", cleanup)
+                scn = scenario(name, shape, fs, cleanup).replace("opt start=1 end=6", "opt rt=%d start=1 end=6" % rng.choice([15, 40]))
+                cases.append((name, scn, cleanup, fs))
     traces = hg.run_driver("engine", [c[1] for c in cases])
+    for tr in traces:      # wall-clock times do not fit TLC's integers and are not used by LifeTrace
+        if not isinstance(tr, dict):
+            for e in tr:
+                if "t" in e and isinstance(e["t"], int) and abs(e["t"]) > 10 ** 8:
+                    e["t"] = 0
     items = []
     for k, ((name, scn, cleanup, fs), tr) in enumerate(zip(cases, traces)):
         chk.count({"scn": scn})
